@@ -36,10 +36,15 @@ class Hang(BaseException):
 
 
 # --------------------------------------------------------------------------- generator
-def _atom_text(rng, key, blocker_ok=False):
-    """one dependency atom on `key` (ranges, slots, revisions-insensitive, globs)."""
+def _atom_text(rng, key, have=None):
+    """one dependency atom on `key` (ranges, slots, revisions, globs); versions and slots are mostly
+    taken from the packages that exist for the key so that most atoms have a candidate."""
     r = rng.random()
-    v = rng.choice(VERS)
+    cands = (have or {}).get(key)
+    if cands and rng.random() < 0.8:
+        v, sl = rng.choice(cands)
+    else:
+        v, sl = rng.choice(VERS), rng.choice(SLOTS)
     if r < 0.40:
         s = key
     elif r < 0.55:
@@ -57,9 +62,9 @@ def _atom_text(rng, key, blocker_ok=False):
     elif r < 0.90:
         s = f"={key}-{v.split('-r')[0].split('_')[0].split('.')[0]}*"
     else:
-        s = f"{key}:{rng.choice(SLOTS)}"
+        s = f"{key}:{sl}"
     if r < 0.87 and rng.random() < 0.15:
-        s += ":" + rng.choice(SLOTS)
+        s += ":" + sl
     return s
 
 
@@ -69,7 +74,7 @@ def _akey(a):
     return re.search(r"a/p\d+", a).group(0)
 
 
-def _depstring(rng, keys, own_key, density):
+def _depstring(rng, keys, own_key, density, have=None):
     toks = []
     n = 0
     while rng.random() < density and n < 3:
@@ -77,18 +82,16 @@ def _depstring(rng, keys, own_key, density):
         r = rng.random()
         others = [k for k in keys if k != own_key] or keys
         if r < 0.62:
-            toks.append(_atom_text(rng, rng.choice(keys if rng.random() < 0.12 else others)))
+            toks.append(_atom_text(rng, rng.choice(keys if rng.random() < 0.12 else others), have))
         elif r < 0.82:
-            alts = [_atom_text(rng, rng.choice(others)) for _ in range(rng.choice((2, 2, 3)))]
-            if rng.random() < 0.08:
-                alts[rng.randrange(len(alts))] = "!" + _atom_text(rng, rng.choice(others))
+            alts = [_atom_text(rng, rng.choice(others), have) for _ in range(rng.choice((2, 2, 3)))]
             toks.append("|| ( " + " ".join(alts) + " )")
         else:
             # weak / strong blocker, on another key (or an older version of our own key)
             if rng.random() < 0.2:
                 b = f"<{own_key}-{rng.choice(VERS)}"
             else:
-                b = _atom_text(rng, rng.choice(others))
+                b = _atom_text(rng, rng.choice(others), have)
             toks.append(("!!" if rng.random() < 0.35 else "!") + b)
     return " ".join(toks)
 
@@ -99,18 +102,23 @@ def gen_scenario(rng, big=False):
     density = rng.choice((0.25, 0.4, 0.55, 0.7))
     nsrc = rng.randint(2, 9 if not big else 12)
     seen = set()
-    src = []
+    shape = []
     for _ in range(nsrc):
         k = rng.choice(keys)
         v = rng.choice(VERS)
         if (k, v) in seen:
             continue
         seen.add((k, v))
-        slot = rng.choice(SLOTS)
+        shape.append((k, v, rng.choice(SLOTS)))
+    have = {}
+    for k, v, sl in shape:
+        have.setdefault(k, []).append((v, sl))
+    src = []
+    for k, v, slot in shape:
         deps = {}
         for c in CLASSES:
             if rng.random() < (0.45 if c in ("depend", "rdepend") else 0.25):
-                d = _depstring(rng, keys, k, density)
+                d = _depstring(rng, keys, k, density, have)
                 if d:
                     deps[c] = d
         src.append([f"{k}-{v}", slot, deps])
@@ -129,7 +137,7 @@ def gen_scenario(rng, big=False):
                 if e[0] == cpv:
                     slot = e[1]
             if rng.random() < 0.5:
-                d = _depstring(rng, keys, k, density)
+                d = _depstring(rng, keys, k, density, have)
                 if d:
                     deps[rng.choice(CLASSES)] = d
         k = cpv.rsplit("-", 2 if "-r" in cpv else 1)[0]
@@ -155,7 +163,7 @@ def gen_scenario(rng, big=False):
         ent[2] = nd
     targets = []
     for _ in range(rng.choice((1, 1, 1, 2, 2, 3))):
-        t = _atom_text(rng, rng.choice(keys))
+        t = _atom_text(rng, rng.choice(keys), have)
         if t not in targets:
             targets.append(t)
     return {"vdb": vdb, "src": src, "targets": targets, "kind": rng.choice(KINDS)}
@@ -225,17 +233,17 @@ class World:
         def on_alarm(*_):
             raise Hang()
 
-        old = signal.signal(signal.SIGALRM, on_alarm)
+        old = signal.signal(signal.SIGVTALRM, on_alarm)
         try:
-            signal.setitimer(signal.ITIMER_REAL, TIMEOUT_S)
+            signal.setitimer(signal.ITIMER_VIRTUAL, TIMEOUT_S, 0.2)
             try:
                 return self._resolve()
             finally:
-                signal.setitimer(signal.ITIMER_REAL, 0)
+                signal.setitimer(signal.ITIMER_VIRTUAL, 0)
         except Hang:
             return Err("Hang")
         finally:
-            signal.signal(signal.SIGALRM, old)
+            signal.signal(signal.SIGVTALRM, old)
 
     def _resolve(self):
         try:
@@ -247,7 +255,7 @@ class World:
             for op in r.state.iter_ops(True):
                 code = {"add": 0, "remove": 1, "replace": 2}[op.desc]
                 oldp = self.pid[id(op.old_pkg)] if code == 2 else None
-                ops.append([code, self.pid[id(op.pkg)], oldp])
+                ops.append([code, self.pid[id(op.pkg)], oldp, bool(op.force)])
             return ("ok", ops)
         except RecursionError:
             return Err("RecursionError")
@@ -258,7 +266,7 @@ class World:
 # --------------------------------------------------------------------------- the statement, in Python
 def final_state(w: World, ops):
     st = [i for i, m in enumerate(w.meta) if m[2]]
-    for code, p, old in ops:
+    for code, p, old, *_ in ops:
         if code == 0:
             if p not in st:
                 st.append(p)
@@ -277,13 +285,13 @@ def py_check(w: World, ops):
     fin = final_state(w, ops)
     finset = set(fin)
     planned = []
-    for code, p, old in ops:
+    for code, p, old, *_ in ops:
         if code in (0, 2) and p in finset and p not in planned:
             planned.append(p)
     merged = [p for p in planned if not w.meta[p][2]]
     # well-formedness of the op list
     st = {i for i, m in enumerate(w.meta) if m[2]}
-    for n, (code, p, old) in enumerate(ops):
+    for n, (code, p, old, *_) in enumerate(ops):
         if code == 0:
             if w.meta[p][2] and p not in st:
                 bad.append(("wf", f"op {n} adds an installed package that was removed"))
@@ -359,7 +367,7 @@ def c_world(w: World, ops):
         ps.append(f"P {kid[key]} {sid[slot]} {cbool(livefs)} {clist(cls)}")
     mt = clist([c_nl(r) for r in w.match], "list N")
     tg = c_nl(w.atom_id[str(t)] for t in w.targets)
-    os_ = clist([f"O {code} {p} {0 if old is None else old}" for code, p, old in ops], "op")
+    os_ = clist([f"O {code} {p} {0 if old is None else old}" for code, p, old, *_ in ops], "op")
     return f"(mkcase {clist(ps, 'pkg')} {mt} {tg} {os_})"
 
 
@@ -426,7 +434,109 @@ def gen_tables():
 
 
 # --------------------------------------------------------------------------- known findings
-# (none listed; see notes/C15.md)
+def _dep_graph(w: World):
+    """p -> q when resolving p can recurse into q: q matches a non-blocker alternative of p, or q is
+    another version of the key a weak blocker of p names (the resolver then tries to re-resolve that
+    key to something the blocker does not match)."""
+    g = {i: set() for i in range(len(w.meta))}
+    for p, (_, _, _, cnfs) in enumerate(w.meta):
+        for c in CLASSES:
+            for clause in cnfs[c]:
+                for a, blocks in clause:
+                    m = set(w.match[w.atom_id[a]])
+                    if not blocks:
+                        g[p] |= m
+                    elif not a.startswith("!!"):
+                        k = _akey(a)
+                        g[p] |= {q for q, mq in enumerate(w.meta) if mq[0] == k and q not in m}
+    return g
+
+
+def _reach(g, starts):
+    seen, todo = set(), list(starts)
+    while todo:
+        x = todo.pop()
+        if x in seen:
+            continue
+        seen.add(x)
+        todo.extend(g[x])
+    return seen
+
+
+def kf_cycle_nontermination(w: World, err: str) -> bool:
+    """known class `cycle-nontermination`: the resolver recursed without bound (RecursionError, or no
+    answer within the time limit) AND a candidate of some target reaches a dependency cycle."""
+    if err not in ("RecursionError", "Hang"):
+        return False
+    g = _dep_graph(w)
+    starts = set()
+    for t in w.targets:
+        starts |= set(w.match[w.atom_id[str(t)]])
+    r = _reach(g, starts)
+    return any(x in _reach(g, g[x]) for x in r)
+
+
+def kf_slot_contention(w: World, ops, failure) -> bool:
+    """known class `slot-contention`: an unmet requirement (a target, or a clause of a merged package)
+    one of whose plain alternatives is matched by a package R of the universe whose (key, slot) is held
+    in the final state by a different package: two requirements competed for one slot and the resolver
+    reported success although only one of them can hold."""
+    kind, d = failure
+    if kind == "target":
+        alts = [d]
+    elif kind == "dep":
+        alts = [a for a in d["clause"] if not a.startswith("!")]
+    else:
+        return False
+    fin = final_state(w, ops)
+    held = {w.meta[p][:2]: p for p in fin}
+    for a in alts:
+        for r in w.match[w.atom_id[a]]:
+            h = held.get(w.meta[r][:2])
+            if h is not None and h != r:
+                return True
+    return False
+
+
+def kf_forced_vdb_load(w: World, ops, failure) -> bool:
+    """known class `forced-vdb-load`: the violated blocker belongs to an installed package that entered
+    the plan through a *forced* add (plan._ensure_livefs_is_loaded side-loads installed packages without
+    processing their dependencies or blockers)."""
+    kind, d = failure
+    if kind != "blocker" or not d["pkg"].startswith("vdb:"):
+        return False
+    forced = {w.scn_name(o[1]) for o in ops if o[0] == 0 and len(o) > 3 and o[3]}
+    return d["pkg"] in forced
+
+
+def kf_cycle_assumed(w: World, ops, failure) -> bool:
+    """known class `cycle-assumed`: an unmet clause of a merged package P one of whose plain
+    alternatives is matched by a package R that itself (transitively) depends on P: the dependency
+    closes a cycle, check_for_cycles answers "satisfied" on the assumption that the package under
+    resolution higher in the stack will be inserted, and that package is later abandoned."""
+    kind, d = failure
+    if kind != "dep":
+        return False
+    names = [w.scn_name(i) for i in range(len(w.meta))]
+    p = names.index(d["pkg"])
+    g = _dep_graph(w)
+    for a in d["clause"]:
+        if a.startswith("!"):
+            continue
+        for r in w.match[w.atom_id[a]]:
+            if p in _reach(g, [r]):
+                return True
+    return False
+
+
+def classify(w: World, ops, failure):
+    if kf_slot_contention(w, ops, failure):
+        return "slot-contention"
+    if kf_cycle_assumed(w, ops, failure):
+        return "cycle-assumed"
+    if kf_forced_vdb_load(w, ops, failure):
+        return "forced-vdb-load"
+    return None
 
 
 # --------------------------------------------------------------------------- main
@@ -472,10 +582,11 @@ def main(chk: Check):
     chk.lint(["C15"])
     chk.check_fingerprint(ANCHORS)
 
-    scns = corpus_scenarios() + run_stream(chk, chk.n(700, 12000)) + run_stream(chk, chk.n(60, 1500), big=True)
+    scns = corpus_scenarios() + run_stream(chk, chk.n(900, 15000)) + run_stream(chk, chk.n(100, 2000), big=True)
     cases, worlds = [], []
     stats = {"ok": 0, "fail": 0, "crash": 0}
-    prop_bad = []
+    prop_bad = []          # unclassified property failures (violations)
+    known_hits = {}
     for scn in scns:
         w, res = evaluate(chk, scn)
         if isinstance(res, Err):
@@ -483,9 +594,12 @@ def main(chk: Check):
                 chk.note(f"generator produced an input the parsers refuse: {res.kind}")
                 continue
             stats["crash"] += 1
-            if len(prop_bad) < 40:
-                prop_bad.append({"what": f"building/running the resolver raised {res.kind} on a well-formed repository",
-                                 "input": scn, "error": res.kind})
+            if kf_cycle_nontermination(w, res.kind) and chk.known_finding(
+                    "cycle-nontermination", {"input": scn, "error": res.kind}):
+                known_hits["cycle-nontermination"] = known_hits.get("cycle-nontermination", 0) + 1
+                continue
+            prop_bad.append({"what": f"building/running the resolver raised {res.kind} on a well-formed repository",
+                             "input": scn, "error": res.kind})
             continue
         if res[0] == "fail":
             stats["fail"] += 1
@@ -493,43 +607,74 @@ def main(chk: Check):
         stats["ok"] += 1
         ops = res[1]
         fails = py_check(w, ops)
-        if fails and len(prop_bad) < 40:
+        expect = not fails
+        unclassified = []
+        for f in fails:
+            cid = classify(w, ops, f)
+            if cid is not None and chk.known_finding(cid, {"input": scn, "ops": ops, "failed": f}):
+                known_hits[cid] = known_hits.get(cid, 0) + 1
+            else:
+                unclassified.append(f)
+        if unclassified:
             prop_bad.append({"what": "successful resolution whose plan violates the statement: "
-                                     + ", ".join(sorted({f[0] for f in fails})),
-                             "input": scn, "ops": ops, "failed": fails[:4]})
-        cases.append((c_world(w, ops), Raw("(VB true)")))
+                                     + ", ".join(sorted({f[0] for f in unclassified})),
+                             "input": scn, "ops": ops, "failed": unclassified[:4]})
+        cases.append((c_world(w, ops), Raw("(VB true)" if expect else "(VB false)")))
         worlds.append((scn, ops, fails))
-        merged = {p for code, p, _ in ops if code in (0, 2) and not w.meta[p][2]}
+        merged = {p for code, p, *_ in ops if code in (0, 2) and not w.meta[p][2]}
         if len(ops) >= 2 and any(w.meta[p][3][c] for p in merged for c in CLASSES):
             chk.nontrivial(repr((scn, ops)))
         if len(chk.cov["samples"]) < 3 and len(ops) >= 3:
             chk.sample({"stream": "plans", "input": scn, "ops": ops})
     chk.count("resolutions", stats["ok"] + stats["fail"] + stats["crash"])
     chk.cov["resolver_outcomes"] = stats
+    chk.cov["known_finding_hits"] = known_hits
     chk.cov["ops_histogram"] = _hist(len(o) for _, o, _ in worlds)
+    chk.cov["kinds"] = _hist2(s["kind"] for s, _, _ in worlds)
 
-    coq_bad = []
+    # the verified checker, inside Coq, on every exported plan.  The recorded value is the verdict of
+    # the harness's Python reading of the statement, so a mismatch is a disagreement between the two
+    # readings (the Coq one is the proved one); the property verdict itself is reported below.
     if ok:
-        r = chk.coq_eval("plans", IMPORTS, "case", cases, ["mismatches run_check cases"], shard=400)
+        r = chk.coq_eval("plans", IMPORTS, "case", cases, ["mismatches run_check cases"], shard=350)
         if r is not None:
-            coq_bad = r[0]
             chk.count("plans_checked_in_coq", len(cases))
-    # disagreement between the verified checker and the Python transcription of the statement
-    pyset = {i for i, (_, _, f) in enumerate(worlds) if f}
-    for i in sorted(set(coq_bad) ^ pyset)[:3]:
-        chk.violation("correspondence",
-                      {"what": "Model_C15.check_plan (Coq) and the harness's Python reading of the statement "
-                               "disagree on a plan", "input": worlds[i][0], "ops": worlds[i][1],
-                       "coq_rejects": i in coq_bad, "python_failures": worlds[i][2][:4]}, no_input=False)
-    for i in coq_bad[:5]:
-        if i not in pyset:
-            continue
-    shown = 0
-    for b in prop_bad:
-        if shown >= 5:
-            break
-        shown += 1
-        chk.violation("property", b)
+            for i in r[0][:3]:
+                chk.violation("correspondence",
+                              {"what": "Model_C15.check_plan (Coq, proved equivalent to ValidPlan) and the harness's "
+                                       "Python reading of the statement disagree on an exported plan",
+                               "input": worlds[i][0], "ops": worlds[i][1],
+                               "python_failures": worlds[i][2][:4]}, no_input=not prop_bad)
+    for b in prop_bad[:5]:
+        small = b
+        try:
+            small = dict(b, input=_shrink_failure(b))
+        except Exception:  # noqa: BLE001
+            pass
+        chk.violation("property", small)
+
+
+def _shrink_failure(b):
+    """shrink a failing scenario while it keeps failing in the same way and stays unclassified"""
+    crash = b.get("error")
+
+    def fails(c):
+        w = World(c)
+        r = w.resolve()
+        if crash is not None:
+            return isinstance(r, Err) and r.kind == crash and not kf_cycle_nontermination(w, r.kind)
+        if isinstance(r, Err) or r[0] != "ok":
+            return False
+        return any(classify(w, r[1], f) is None for f in py_check(w, r[1]))
+
+    return shrink_scenario(b["input"], fails, budget=250)
+
+
+def _hist2(xs):
+    h = {}
+    for x in xs:
+        h[str(x)] = h.get(str(x), 0) + 1
+    return dict(sorted(h.items()))
 
 
 def _hist(xs):
